@@ -264,6 +264,7 @@ MUTANTS = {
         m("raw-guard-weakened-to-isinstance", "redun/tags.py", "            if parse_tag_value(value) == value:", "            if isinstance(parse_tag_value(value), str):", "C34.2"),
         m("raw-without-reparse-test", "redun/tags.py", "            if parse_tag_value(value) == value:", "            if True:", "C34.2"),
         m("float-before-int", "redun/tags.py", "    try:\n        return int(value_str)\n    except ValueError:\n        pass\n\n    try:\n        return float(value_str)\n    except ValueError:\n        pass", "    try:\n        return float(value_str)\n    except ValueError:\n        pass\n\n    try:\n        return int(value_str)\n    except ValueError:\n        pass", "C34.3"),
+        m("float-gated-by-narrow-regex", "redun/tags.py", "    try:\n        return float(value_str)\n    except ValueError:\n        pass", "    if re.fullmatch(r\"-?[0-9]+(\\.[0-9]+)?([eE]-?[0-9]+)?\", value_str):\n        try:\n            return float(value_str)\n        except ValueError:\n            pass", "C34.4"),
     ],
     "C35": [
         m("no-escape", CFGF, "                    k: escape_interpolation(substitute_config_dir(v)) for k, v in obj.items()", "                    k: substitute_config_dir(v) for k, v in obj.items()", "C35.1"),
@@ -451,4 +452,51 @@ _add(
 _add(
     "C15",
     m("positional-only-default-by-keyword", S, "        elif param.kind == param.POSITIONAL_ONLY:\n            # A positional-only parameter cannot be passed by keyword. The function applies its\n            # own default.\n            continue\n\n", "", "C15.5"),
+)
+_add(
+    "C23",
+    m(
+        "walker-dedup-continue-skips-upstreams",
+        D,
+        "        if arg_hash not in seen_args:\n            yield \"CallNode.arg\", Value, value_hash\n            seen_args.add(arg_hash)\n",
+        "        if arg_hash in seen_args:\n            continue\n        seen_args.add(arg_hash)\n        yield \"CallNode.arg\", Value, value_hash\n",
+        "C23.5",
+    ),
+)
+_add(
+    "C25",
+    m(
+        "fork-chain-stops-at-recorded-parent",
+        D,
+        "            if _handle.__handle__.fork_parent:\n                fork_edges.append((_handle.__handle__.fork_parent, _handle))\n                queue.append(_handle.__handle__.fork_parent)",
+        "            fork_parent = _handle.__handle__.fork_parent\n            if fork_parent and not fork_parent.__handle__.is_recorded:\n                fork_edges.append((fork_parent, _handle))\n                queue.append(fork_parent)",
+        "C25.3",
+    ),
+)
+_add(
+    "C29",
+    m(
+        "unstage-keyed-by-local-path",
+        "redun/scripting.py",
+        "    file_stages = [value for value in iter_nested_value(outputs) if isinstance(value, Staging)]\n    command_parts.extend(file_stage.render_unstage(as_mount) for file_stage in file_stages)",
+        "    file_stages = {value.local.path: value for value in iter_nested_value(outputs) if isinstance(value, Staging)}\n    command_parts.extend(file_stage.render_unstage(as_mount) for file_stage in file_stages.values())",
+        "C29.2",
+    ),
+)
+_add(
+    "C22",
+    m(
+        "own-subtree-row-before-args-commit",
+        D,
+        "                # Record CallEdges only if child was recorded (might not be if prov=False).\n                recorded_child_hashes = {",
+        "                session.add(CallSubtreeTask(call_hash=call_hash, task_hash=task_hash))\n\n                # Record CallEdges only if child was recorded (might not be if prov=False).\n                recorded_child_hashes = {",
+        "C22.7",
+    ),
+)
+_add(
+    "C32",
+    m("no-cache-flag-only-for-scope-none", "redun/executors/command.py", "        if CacheScope(job_options.get(\"cache_scope\", CacheScope.BACKEND)) == CacheScope.BACKEND\n        else [\"--no-cache\"]", "        if CacheScope(job_options.get(\"cache_scope\", CacheScope.BACKEND)) != CacheScope.NONE\n        else [\"--no-cache\"]", "C32.6"),
+    m("gcp-single-job-without-options", "redun/executors/gcp_batch.py", "                kwargs=kwargs,\n                job_options=task_options,\n", "                kwargs=kwargs,\n", "C32.6"),
+    m("k8s-reunite-ignores-cache-scope", "redun/executors/k8s.py", "        if cache_scope == CacheScope.BACKEND and job.eval_hash in self.preexisting_k8s_jobs:", "        if job.eval_hash in self.preexisting_k8s_jobs:", "C32.6"),
+    m("oneshot-existing-output-despite-no-cache", "redun/cli.py", "                if not args.no_cache and output_file.exists():", "                if output_file.exists():", "C32.6"),
 )
